@@ -462,7 +462,7 @@ class RefSig:
         if i in self._full:
             return self._full[i]
         node = self.bp["nodes"][i]
-        pres = tuple(sorted(repr(self.csig(p, [])) for p in self.pre_tasks(i)))
+        pres = tuple(sorted((self.csig(p, []) for p in self.pre_tasks(i)), key=repr))
         inits = tuple(self.csig(t, []) for t in (node.get("submit") or {}).get("init", []))
         r = ("full", self.csig(i, []), pres, inits)
         self._full[i] = r
@@ -489,7 +489,7 @@ CLASS_WEIGHTS = [
     ("Leaf2", 7),
     ("LeafTwin", 5),
     ("Node", 38),
-    ("LW", 8),
+    ("LW", 12),
     ("T", 9),
     ("TOut", 7),
     ("TInner", 4),
@@ -624,6 +624,7 @@ def blueprints(
     weights=None,
     root_task=False,
     meta_pct=14,
+    density=40,
 ):
     sp = spec()
     model = GenModel()
@@ -636,7 +637,7 @@ def blueprints(
             cls = draw(st.sampled_from(["T", "TOut", "TInner"]))
         if not submits and sp[cls]["task"]:
             cls = "Node"
-        args = draw_args(draw, model, cls, idx)
+        args = draw_args(draw, model, cls, idx, density)
         if args is None:
             cls, args = "Leaf", [["i", draw(INTS)]]
         node = {"cls": cls, "args": args, "meta": None, "tags": [], "pre": [], "patches": [], "submit": None}
@@ -660,8 +661,8 @@ def blueprints(
                 node["patches"].append([t, param, v])
         if s["task"] and submits and (chance(draw, 80) or (root_task and idx == n - 1)):
             init = []
-            if lws and chance(draw, 33):
-                init = draw(st.lists(st.sampled_from(lws), min_size=1, max_size=2))
+            if lws and chance(draw, 45):
+                init = draw(st.lists(st.sampled_from(lws), min_size=1, max_size=3))
             node["submit"] = {"init": init}
             model.seal_from(idx)
     return model.bp()
